@@ -5,6 +5,7 @@ import (
 	"strings"
 	"sync"
 	"testing"
+	"time"
 
 	"verif/harness/internal/pand"
 	"verif/harness/internal/target"
@@ -198,5 +199,5 @@ func checkScen(c ScenCase, o *vf.Obs) error {
 func TestScenarioGun(t *testing.T) {
 	pand.Init()
 	r := vf.Start(t, "C19")
-	vf.Check(r, genScen, checkScen)
+	vf.Check(r, genScen, vf.LoadTolerant(25*time.Millisecond, checkScen))
 }
